@@ -258,7 +258,21 @@ def _monitor_selftest(_):
 CONFIGS = [dict(maxsize=m, retries=rt, seg=sg) for m in (1, 2) for rt in (0, 1) for sg in ("slurp", "exact")]
 
 
-def plan(tier, seed):
+def release_closes_unread() -> bool:
+    """Which Model describes this tree?  One tiny calibration history: read one unit, release_conn(), let go
+    of the response, next request.  As recorded in DESIGN 5 / known_findings.d the connection goes back to the
+    pool as it is (Model as-is); a tree in which release_conn() discards a connection whose body is unread
+    dials again (Model with the named switch ReleaseClosesUnread).  Only selects the Model used for the
+    expected observations (drift); the Rules verdicts do not depend on it."""
+    sc = {"fr": "cl", "sub": "204", "len": 2, "cut": c03drv.NOCUT, "ka": True, "extra": "none", "after": "none", "late": 0,
+          "shape": "cells"}
+    t = c03drv.run_history({"maxsize": 1, "retries": 1, "seg": "slurp",
+                            "steps": [{"sc": sc, "op": {"kind": "readk", "k": 1, "hold": False}},
+                                      {"sc": sc, "op": {"kind": "read", "k": 0, "hold": False}}]})
+    return t["dials"] == 2
+
+
+def plan(tier, seed, dev="NoDev"):
     """(emission jobs, expected history counts)"""
     jobs = []
 
@@ -267,7 +281,7 @@ def plan(tier, seed):
             meta = dict(cls=cls, maxsize=kw.get("maxsize", 1), retries=kw.get("retries", 1), seg=kw.get("seg", "slurp"),
                         salt=seed + 7 * len(jobs), group=f"{cls}:{json.dumps(kw, sort_keys=True)}", expect=expect)
             inv = INVS_S4 if cls == "s4" or kw.get("sn") == "HardS4Scripts" else INVS
-            jobs.append((cfg(k=k, s=s, inv=inv, **kw), meta))
+            jobs.append((cfg(k=k, s=s, inv=inv, dev=dev, **kw), meta))
 
     nh, no, nc, nco, ns4, nf = 21, 12, 8, 7, 5, 2
     if tier == "quick":
@@ -292,14 +306,14 @@ def plan(tier, seed):
     return jobs
 
 
-def simulation_jobs(tier, seed):
+def simulation_jobs(tier, seed, dev="NoDev"):
     """Random behaviours of 4 requests over the full sets (incl. in-flight tails at any position)."""
     n, per = (2, 150) if tier == "quick" else (16, 2500)
     jobs = []
     for j in range(n):
         c = CONFIGS[(seed + j) % len(CONFIGS)]
         meta = dict(cls="sim", salt=seed + j, group="sim", expect=None, simulate=f"num={per}", seed=seed * 1000 + j + 1, **c)
-        jobs.append((cfg(nreq=4, full=4, s1="HardS4Scripts", sn="HardS4Scripts", inv=INVS_S4, **c), meta))
+        jobs.append((cfg(nreq=4, full=4, s1="HardS4Scripts", sn="HardS4Scripts", inv=INVS_S4, dev=dev, **c), meta))
     return jobs
 
 
@@ -335,7 +349,9 @@ def run(rep):
                        "segmentation is one of: every raw read takes all pending bytes / exactly one unit",
                        "http.client's parsing of status lines and chunk sizes is trusted",
                        "stray bytes arriving after the next checkout are outside the statement and never generated"]
-    jobs = plan(rep.tier, rep.seed) + simulation_jobs(rep.tier, rep.seed)
+    dev = "DevReleaseCloses" if release_closes_unread() else "NoDev"
+    rep.extra["model_variant"] = "release_conn discards unread connections" if dev != "NoDev" else "as-is (S4 open)"
+    jobs = plan(rep.tier, rep.seed, dev) + simulation_jobs(rep.tier, rep.seed, dev)
     s1 = stage1_jobs(rep.tier)
     with mp.Pool(min(16, os.cpu_count() or 4)) as pool:
         a1 = pool.map_async(_stage1, s1, chunksize=1)
